@@ -12,7 +12,7 @@ OneDouble == Cardinality({i \in 1..Len(subs) : Len(subs[i].script) = 2}) <= 1
 NoLateSubscribe == nn > 0 => \A h \in Handles : handle'[h] = handle[h] \/ handle'[h] = 0
 NoOrder == <<>>
 Order123 == <<"h1", "h2", "h3">>
-AllOps == {"Subscribe", "UnsubH", "UnsubS", "Mute", "Unmute", "Invalidate", "Swap", "Notify"}
+AllOps == {"Subscribe", "SubscribeMuted", "UnsubF", "UnsubH", "UnsubS", "Mute", "Unmute", "Invalidate", "Swap", "Notify"}
 ReOps == {"Subscribe", "Notify"}
 \* C10 exploration bound: the three named observers are subscribed first, then at most two notifies
 C10Bound == nn <= 2 /\ (nn > 0 => \A h \in Handles : handle[h] # 0 \/ nid > 3)
